@@ -74,8 +74,10 @@ func (p *Program) verifyTheorem(c *Contract) (res *FuncResult) {
 	for _, fnn := range fnames {
 		q.Funs = append(q.Funs, ex.Funs[fnn])
 	}
-	q.Asserts = append(append([]*Term{}, hyps...), Not(body))
-	if ex.Mode == ModeBV && len(ex.Funs) == 0 {
+	// values of package-level variables read from the real initialisers (facts about the program, not contract
+	// assumptions: a theorem may speak about constants such as sema.Int8Type's range)
+	q.Asserts = append(append(append([]*Term{}, ex.Assumes...), hyps...), Not(body))
+	if ex.Mode == ModeBV && len(ex.Funs) == 0 && len(ex.Assumes) == 0 {
 		q.Logic = "QF_BV"
 	}
 	var tags []string
